@@ -143,4 +143,21 @@ def _replay_list_step(model, rec):
         except TextXSemanticError as e:
             if (e.line, e.col) != (2, want_col):
                 bad.append(f"unknown reference 'zz' is at line 2 col {want_col}, error says {(e.line, e.col)}")
-    return bool(bad), "; ".join(bad) or "errors point at the offending list element"
+    # the cross-ref of a list element also records where its text ENDS (C34: the go-to-definition
+    # entry must delimit exactly the reference text, also for multi-part names in list attributes)
+    import textx.scoping.providers as sp
+
+    mm2 = metamodel_from_str(
+        "Model: packs+=Pack 'use' many+=[Item:FQN][','] 'one' one=[Item:FQN];"
+        " Pack: 'pack' name=ID '{' items+=Item '}'; Item: 'item' name=ID; FQN: ID('.'ID)*;",
+        textx_tools_support=True)
+    mm2.register_scope_providers({"*.*": sp.FQN()})
+    text2 = "pack alpha { item one item two } pack beta { item three }\nuse alpha.two, beta.three , alpha.one one beta.three"
+    m2 = mm2.model_from_str(text2)
+    for r in m2._pos_crossref_list:
+        if text2[r.ref_pos_start:r.ref_pos_end] != r.name:
+            bad.append(f"reference {r.name!r} at {r.ref_pos_start}: the recorded end {r.ref_pos_end} delimits "
+                       f"{text2[r.ref_pos_start:r.ref_pos_end]!r}")
+    if len(m2._pos_crossref_list) != 4:
+        bad.append(f"{len(m2._pos_crossref_list)} go-to-definition entries for 4 references")
+    return bool(bad), "; ".join(bad) or "errors point at the offending list element; reference ends recorded"
